@@ -109,6 +109,12 @@ chk("C11",
     "exhaustive enumeration of all bounded delimiter-run strings; reference-model (spec procedure) comparison on the real parser's rendered output",
     "DESIGN.md section 6, C11")
 
+chk("C04",
+    "Every bounded input and every member of the parametric families (deep nesting to 4096, long runs, unterminated constructs, invalid UTF-8, NUL, lone CR) goes through Parse, NextBlock+Extract+Rewrite, Render under 24 configurations, Format and Walk in a worker built with statement-level step counting. Oracle: no panic (recovered and attributed), no fatal error (worker death is re-run alone in a fresh process and attributed to the in-flight input), a deterministic step bound instead of a wall clock for 'loops forever', only io.EOF / nil errors with a healthy reader / writer.",
+    "Bounded scope (alphabets, lengths, family sizes in the evidence). Step bound 10^7 + 10^3*len^2 instrumented statements per operation; measured maxima and their ratio to the bound are in the evidence. Loops inside uninstrumented dependencies are only caught by the watchdog.",
+    "stateless explicit enumeration of all bounded inputs x 5 operations x 24 renderer configurations on the instrumented real code; totality oracle with deterministic fuel",
+    "DESIGN.md section 6, C04")
+
 # Reasons for properties not (yet) claimed.
 PENDING = {}
 
@@ -143,7 +149,7 @@ def main():
             "guard": "verif (Go build tag)",
             "enable": "go build -tags verif (./run builds the checker against /repo's working tree through a replace directive); statement-level instrumentation for C04/C19 is generated at check time into an overlay outside /repo",
             "baseline_off_cmd": "cd /repo && go test -mod=mod -json -vet=off -count=1 -timeout 25m ./...",
-            "source_commits": ["ac23197"],
+            "source_commits": ["ac23197", "184d026"],
             "add_only": True,
         },
         "engines": [
